@@ -128,8 +128,8 @@ Proof.
     destruct (apply_target c s1 i r) as [[s2 ws] err] eqn:EA.
     destruct A as (_ & -> & _). cbn in *. split; [apply R; reflexivity|].
     rewrite (Hc2 s2 ws 0 eq_refl). exact Hc1.
-  - destruct T as (_ & L1 & _ & _ & P1 & _). destruct Tf as (_ & _ & Hc). cbn. split.
-    + intros r E. rewrite L1 in E. rewrite P1. apply Sh; exact E.
+  - destruct T as (_ & L1 & _ & _ & P1 & _). destruct Tf as (_ & _ & Hc). unfold set_stopped. cbn. split.
+    + intros r E. cbn in E. rewrite L1 in E. cbn. rewrite P1. apply Sh; exact E.
     + destruct Hc as [E|E]; [exact E|rewrite E; apply third_party_quiet; exact Sh].
 Qed.
 
